@@ -210,8 +210,8 @@ pub fn check(c: &Case) -> Outcome {
 fn benign_spec(nmax: usize) -> BoxedStrategy<ProbSpec> {
     prop_oneof![
         4 => prob_spec(nmax, 0.3, 6.0),
-        1 => (fr(-2.0, 2.0), fr(-2.0, 2.0), warp(0.3, 3.0)).prop_map(|(c, u0, w)| ProbSpec { blocks: vec![Block::Const { c, u0 }], warp: w, mix: None }),
-        1 => (fr(-2.0, 2.0), warp(0.3, 3.0)).prop_map(|(u0, w)| ProbSpec { blocks: vec![Block::Const { c: 0.0, u0 }, Block::Const { c: 0.0, u0: 1.0 }], warp: w, mix: None }),
+        1 => (fr(-2.0, 2.0), fr(-2.0, 2.0), warp(0.3, 3.0)).prop_map(|(c, u0, w)| ProbSpec { blocks: vec![Block::Const { c, u0 }], warp: w, mix: None, mag2: 0 }),
+        1 => (fr(-2.0, 2.0), warp(0.3, 3.0)).prop_map(|(u0, w)| ProbSpec { blocks: vec![Block::Const { c: 0.0, u0 }, Block::Const { c: 0.0, u0: 1.0 }], warp: w, mix: None, mag2: 0 }),
     ]
     .boxed()
 }
@@ -235,7 +235,7 @@ fn global_spec(nmax: usize) -> BoxedStrategy<ProbSpec> {
             if blocks.is_empty() {
                 blocks.push(Block::Real { lam: -0.5, u0: 1.0 });
             }
-            ProbSpec { blocks, warp: Warp { theta, k: 0, beta: 0.0 }, mix: None }
+            ProbSpec { blocks, warp: Warp { theta, k: 0, beta: 0.0 }, mix: None, mag2: 0 }
         })
         .boxed()
 }
